@@ -237,12 +237,19 @@ def end_to_end_shape(out, seed, entry, place):
         # (compared after lexical normalisation: a path dependency next to app is reported as app/../dep/..., finding C17-F2)
         if not target or os.path.normpath(target[len("file://"):]) != dep:
             raise vlib.ToolError("end-to-end workspace (%s, %s) not resolved (goto-definition of dep.f gave %r)" % (entry, place, r))
-        for (rid, path, text, needle, off, locality, site, new, cls, accept) in rows:
+        # the table is asked twice: once the workspace is loaded, and again after the project's gleam.toml was opened in the
+        # editor - the server then assembles its package graph a second time, from all the roots it knows by now (the
+        # decision table does not depend on how often that happened)
+        toml = os.path.join(root, "gleam.toml")
+        for phase, (rid, path, text, needle, off, locality, site, new, cls, accept) in [(ph, r) for ph in ("loaded", "after_toml_open") for r in rows]:
+            if phase == "after_toml_open" and rid == rows[0][0]:
+                sess.did_open(toml, files[toml])
+                sess.wait_quiet(0.5, 10)
             tdp = {"textDocument": {"uri": lsp.uri(path)}, "position": position(text, needle, off)}
             kind = "module" if rid == "module_qualifier" else "function"
             feats = lambda what, api: {"what": what, "kind": kind, "name_class": cls, "locality": locality, "site": site, "api": api,
                                        "via": "qualified" if site == "use" and path == app else "direct", "occ": "e2e." + rid, "level": "server",
-                                       "dep_entry": entry, "dep_place": place}
+                                       "dep_entry": entry, "dep_place": place, "phase": phase}
             detail = lambda got: {"e2e": True, "row": rid, "dep_entry": entry, "dep_place": place, "new_name": new, "got": got, "seed": seed}
             pr = sess.request("textDocument/prepareRename", tdp)
             rr = sess.request("textDocument/rename", dict(tdp, newName=new))
@@ -270,9 +277,9 @@ def end_to_end_shape(out, seed, entry, place):
                 out.report(feats("prepare_rename_disagree", "prepare" if r_ok else "rename"), detail({"prepare": pr, "rename": rr}))
     finally:
         sess.close()
-    out.cov["traces_validated_against_impl"] += len(rows)
+    out.cov["traces_validated_against_impl"] += 2 * len(rows)
     out.cov["evaluations"] += n
-    return len(rows)
+    return 2 * len(rows)
 
 
 # ------------------------------------------------------------------------------------------------------------------
